@@ -318,6 +318,7 @@ func checkBookkeeping(c *Ctx) {
 		// package that a top-level statement calls (the definition literal may then be the helper's argument)
 		apps, condApps := 0, 0
 		var lit *ast.CompositeLit
+		litArgs := map[types.Object]ast.Expr{}
 		var count func(fd *ast.FuncDecl, arg ast.Expr, depth int)
 		count = func(fd *ast.FuncDecl, arg ast.Expr, depth int) {
 			for _, st := range fd.Body.List {
@@ -353,6 +354,18 @@ func checkBookkeeping(c *Ctx) {
 								if len(call.Args) == 1 {
 									a0 = call.Args[0]
 								}
+								// the helper's parameters stand for the arguments of this call
+								if hd.Type.Params != nil {
+									k := 0
+									for _, f := range hd.Type.Params.List {
+										for _, n := range f.Names {
+											if k < len(call.Args) {
+												litArgs[info.Defs[n]] = call.Args[k]
+											}
+											k++
+										}
+									}
+								}
 								count(hd, a0, depth+1)
 							}
 						}
@@ -379,16 +392,35 @@ func checkBookkeeping(c *Ctx) {
 			fmt.Sprintf("%d unconditional and %d total assignments to definitions", apps, condApps))
 		if a.wantApp == 1 && lit != nil {
 			fs, _ := compositeFields(lit)
+			// a field given by a parameter of a helper stands for the argument the helper was called with
+			through := func(e ast.Expr) ast.Expr {
+				for i := 0; i < 3; i++ {
+					id, ok := ast.Unparen(e).(*ast.Ident)
+					if !ok {
+						return e
+					}
+					a, ok := litArgs[info.Uses[id]]
+					if !ok {
+						return e
+					}
+					e = a
+				}
+				return e
+			}
 			tOK := false
-			if id, ok := ast.Unparen(fs["Terminal"]).(*ast.Ident); ok && params[info.Uses[id]] == 0 {
-				tOK = true
+			if id, ok := ast.Unparen(through(fs["Terminal"])).(*ast.Ident); ok {
+				if k, isParam := params[info.Uses[id]]; isParam && k == 0 {
+					tOK = true
+				}
 			}
 			vOK := false
-			if id, ok := ast.Unparen(fs["Value"]).(*ast.Ident); ok && params[info.Uses[id]] == 1 {
-				vOK = true
+			if id, ok := ast.Unparen(through(fs["Value"])).(*ast.Ident); ok {
+				if k, isParam := params[info.Uses[id]]; isParam && k == 1 {
+					vOK = true
+				}
 			}
 			rv := ""
-			if tv, ok := info.Types[fs["IsRegex"]]; ok && tv.Value != nil {
+			if tv, ok := info.Types[through(fs["IsRegex"])]; ok && tv.Value != nil {
 				rv = tv.Value.String()
 			}
 			c.Check("R7.3", a.name+": the definition carries the declared token, value and kind", lit.Pos(), tOK && vOK && rv == a.wantRegex,
